@@ -57,8 +57,48 @@ type pathAbort struct {
 }
 
 type fnInfo struct {
-	idx map[ssa.Value]int
-	n   int
+	idx      map[ssa.Value]int
+	n        int
+	resolved bool
+	ext      intrinsicFn // model / harness intrinsic, if any
+	skip     bool        // initialiser of a non-target package
+	bad      string      // unsupported external (engine limitation) message
+	target   bool
+}
+
+// resolve classifies a function once per worker (fn.String() is expensive).
+func (i *interpreter) resolve(fn *ssa.Function, inf *fnInfo) {
+	inf.resolved = true
+	inf.target = fn.Pkg != nil && i.ld.target[fn.Pkg]
+	if fn.Parent() != nil {
+		return
+	}
+	if inf.target && len(fn.Name()) > 2 && fn.Name()[:2] == "vf" && fn.Signature.Recv() == nil {
+		if ext := vfIntrinsics[fn.Name()]; ext != nil {
+			inf.ext = ext
+			return
+		}
+	}
+	name := fn.String()
+	if ext := intrinsics[name]; ext != nil {
+		inf.ext = ext
+		return
+	}
+	if fn.Pkg != nil && !inf.target && fn.Name() == "init" {
+		inf.skip = true
+		return
+	}
+	if fn.Pkg != nil && !inf.target && !interpretable[name] {
+		inf.bad = "unsupported external function: " + name
+		return
+	}
+	if fn.Blocks == nil {
+		if fn.Synthetic != "" && fn.Pkg == nil {
+			inf.bad = "no code for synthetic function: " + name + " (" + fn.Synthetic + ")"
+		} else {
+			inf.bad = "no code for function: " + name
+		}
+	}
 }
 
 // State of one executing path.
@@ -74,6 +114,7 @@ type interpreter struct {
 	consts             map[*ssa.Const]value
 	depth              int
 	sched              *scheduler
+	tacache            map[taKey]int8
 }
 
 type deferred struct {
@@ -532,29 +573,18 @@ func callSSA(i *interpreter, caller *frame, callpos token.Pos, fn *ssa.Function,
 		fn:      fn,
 		callpos: callpos,
 	}
-	if fn.Parent() == nil {
-		if fn.Pkg != nil && i.ld.target[fn.Pkg] && len(fn.Name()) > 2 && fn.Name()[:2] == "vf" && fn.Signature.Recv() == nil {
-			if ext := vfIntrinsics[fn.Name()]; ext != nil {
-				return ext(fr, args)
-			}
-		}
-		name := fn.String()
-		if ext := intrinsics[name]; ext != nil {
-			return ext(fr, args)
-		}
-		if fn.Pkg != nil && !i.ld.target[fn.Pkg] && fn.Name() == "init" {
-			return nil // initialisers of non-target packages are not run
-		}
-		if fn.Pkg != nil && !i.ld.target[fn.Pkg] && !interpretable[name] {
-			panic(engineErr("unsupported external function: " + name))
-		}
-		if fn.Blocks == nil {
-			// synthetic wrapper of an external method, or not built
-			if fn.Synthetic != "" && fn.Pkg == nil {
-				panic(engineErr("no code for synthetic function: " + name + " (" + fn.Synthetic + ")"))
-			}
-			panic(engineErr("no code for function: " + name))
-		}
+	inf := i.infoFor(fn)
+	if !inf.resolved {
+		i.resolve(fn, inf)
+	}
+	if inf.ext != nil {
+		return inf.ext(fr, args)
+	}
+	if inf.skip {
+		return nil // initialisers of non-target packages are not run
+	}
+	if inf.bad != "" {
+		panic(engineErr(inf.bad))
 	}
 
 	// generic function body?
@@ -567,7 +597,7 @@ func callSSA(i *interpreter, caller *frame, callpos token.Pos, fn *ssa.Function,
 	}
 	defer func() { i.depth-- }()
 
-	if i.pc != nil && i.pc.run != nil && i.ld.target[fn.Pkg] {
+	if i.pc != nil && i.pc.run != nil && inf.target {
 		for _, a := range args {
 			if _, ok := a.(*sym); ok {
 				i.pc.touch(fn)
@@ -576,7 +606,7 @@ func callSSA(i *interpreter, caller *frame, callpos token.Pos, fn *ssa.Function,
 		}
 	}
 
-	fr.info = i.infoFor(fn)
+	fr.info = inf
 	fr.env = make([]value, fr.info.n)
 	fr.block = fn.Blocks[0]
 	fr.locals = make([]value, len(fn.Locals))
